@@ -494,3 +494,5 @@ PROPS['C13']['required_classes']['all'] += ['operation-names-in-other-letter-cas
 PROPS['C17']['required_classes']['all'] += ['cache-holds-the-dump-of-an-earlier-build', 'overlapping-runs-in-separate-pid-namespaces']
 PROPS['C11']['units'].append({'test': 'TestC11Sandbox', 'checks': {'quick': 96, 'thorough': 2000}, 'shards': {'quick': 4, 'thorough': 8}, 'helpers': _SANDBOX, 'timeout': {'quick': 300, 'thorough': 1200}})
 PROPS['C11']['required_classes']['all'] += ['sandbox:unprivileged-without-the-bit-fails', 'sandbox:target-bit=0', 'sandbox:target-bit=1']
+PROPS['C01']['units'].append({'test': 'TestC01Concurrent', 'checks': {'quick': 320, 'thorough': 16000}, 'shards': {'quick': 4, 'thorough': 8}, 'timeout': {'quick': 300, 'thorough': 3000}})
+PROPS['C05']['units'].append({'test': 'TestC05Concurrent', 'checks': {'quick': 320, 'thorough': 16000}, 'shards': {'quick': 4, 'thorough': 8}, 'timeout': {'quick': 300, 'thorough': 3000}})
